@@ -269,6 +269,15 @@ def r_unique_variables(ck: Checker) -> None:
             ck.add(f"UniqueVariables({short(unparse(arg), 30)}) in {func.name}", not part, func, call, f"scope argument derives from {sorted(txts)}" + (f": {part} is a part of a statement" if part else " (a whole statement)"),
                    "names made unique against a literal or an aggregate only can capture a variable the statement uses elsewhere (`total(W,T) :- worker(W), T = #sum{S,P : spent(P,S)}` with an inlined rule that has its own W)",
                    rule="C07.FRESH.variable-scope")
+            # one generator per statement: inside a loop a generator is only created for something the loop provides
+            lp = enclosing_loop(func, call)
+            if lp is not None:
+                varying = {x.id for x in ast.walk(lp) if isinstance(x, ast.Name) and isinstance(x.ctx, ast.Store)}
+                used = {x.id for x in ast.walk(arg) if isinstance(x, ast.Name)}
+                ck.add(f"UniqueVariables({short(unparse(arg), 30)}) in {func.name}: one generator per statement", bool(used & varying), func, call,
+                       f"created inside the loop over `{short(unparse(lp.iter), 40)}` for `{unparse(arg)}`, which the loop " + ("provides" if used & varying else "does not change"),
+                       "a generator made anew for every part of the SAME statement hands out the same fresh name again: two ex-lined tuple terms share one AUX variable (a spurious join)",
+                       rule="C07.FRESH.variable-scope")
     ck.need(sites >= 6, f"UniqueVariables constructions found ({sites})")
 
 
@@ -471,10 +480,10 @@ RULES = [
     Rule("C07.FRESH.arity", P7 + ("C11", "C16", "C10"), r_fresh_arity),
     Rule("C07.FRESH.domain-names", P7 + ("C12", "C13", "C20"), r_domain_names),
     Rule("C07.FRESH.variable", P7 + ("C12",), r_fresh_variables),
-    Rule("C07.unique-variables", P7 + P4 + ("C15",), r_unique_variables),
+    Rule("C07.unique-variables", P7 + P4 + ("C15",), r_unique_variables, extra={"C05": ("one generator per statement", "in exline_", "in replace_old_aggregates"), "C02": ("one generator per statement",)}),
     Rule("C07.FLOW.passthrough", P7, r_passthrough),
     Rule("C04.lexical", P4, r_lexical),
     Rule("C04.TABLE.binders", P4 + ("C16", "C10", "C13", "C14"), r_binders),
-    Rule("C04.TABLE.head-binders", P4 + ("C14", "C16"), r_head_binders),
+    Rule("C04.TABLE.head-binders", P4 + ("C14", "C16", "C11", "C01"), r_head_binders),
     Rule("C04.global-vars", P4 + ("C16", "C10", "C11", "C14", "C01"), r_global_vars),
 ]
